@@ -158,6 +158,7 @@ def handleImpl (ds : DState) (op : String) (args impl : List String) : Option (D
     | "mk", _ :: k :: _ => s!"mk.{k}"
     | "single", f :: _ :: how :: _ => s!"single.{f}.{how}"
     | "link", r :: _ :: how :: _ => s!"link.{r}.{how}"
+    | "setlinks", r :: _ => s!"setlinks.{r}"
     | "unlink", r :: _ => s!"unlink.{r}"
     | "set", _ :: f :: _ => s!"set.{f}"
     | "adim", _ :: k :: _ => s!"adim.{k}"
@@ -225,7 +226,7 @@ def handleImpl (ds : DState) (op : String) (args impl : List String) : Option (D
       | _ => none
     let st := { (note st) with lastDeleted := if impl == ["ok", "1"] then victim else none }
     fin st (.ok s!"{op}.{(args.head?).getD ""}.{if ok then (impl[1]?).getD "ok" else (impl[1]?).getD "err"}")
-  | "link" | "unlink" | "single" | "set" =>
+  | "link" | "unlink" | "single" | "set" | "setlinks" =>
     fin (note st) (.ok s!"{op}.{(args.head?).getD ""}.{if ok then (impl[1]?).getD "ok" else (impl[1]?).getD "err"}")
   | "xcheck" =>
     match args with
